@@ -187,7 +187,13 @@ def check_pair(ctx, c):
                 err = abs(got - want)
                 ctx.resolve(f"pointwise_rel_s0_{'analytic' if analytic else 'numerical'}", err / max(abs(s0), 1e-300))
                 if not err <= tol:
-                    ctx.fail(dict(mech, what="density!=transform(pointwise)"),
+                    m2 = dict(mech, what="density!=transform(pointwise)")
+                    if not analytic:
+                        fine = _build(dict(d, hankel_kw={"N": 5000, "h": 2e-5}))
+                        got_f = float(np.asarray(fine.spectral_density(np.array([abs(k)])))[0])
+                        if abs(got_f - want) < 0.5 * err:
+                            m2["mechanism"] = "numerical-spectrum/hankel-default-resolution"
+                    ctx.fail(m2,
                              f"{name} {opt} dim {dim} len_scale {d['len_scale']} k*l={kr}: reported {got!r}, transform of the correlation {want!r}")
                     return
 
